@@ -37,6 +37,7 @@ def write_evidence(prop, tier, seed, level, results, wall, extra, nviol):
     probes = collections.Counter()
     stats = collections.Counter()
     keys = set()
+    states = set()
     digests = set()
     nops = 0
     sim_time = 0.0
@@ -48,6 +49,7 @@ def write_evidence(prop, tier, seed, level, results, wall, extra, nviol):
         nops += r["nops"]
         sim_time += r["sim_time"]
         digests.add(r["digest"])
+        states.update(r.get("distinct") or ())
         if r["nontrivial"]:
             keys.add(r["key"])
         if r.get("trace") and len(samples) < 3 and not r["violation"]:
@@ -74,6 +76,8 @@ def write_evidence(prop, tier, seed, level, results, wall, extra, nviol):
         "workload_stats": dict(sorted(stats.items())),
         "real_vs_stub": real_vs_stub(prop),
     }
+    if states:
+        cov["distinct_states"] = len(states)
     cells = [k for k in stats if k.startswith("cell:")]
     if cells:
         cov["cells_covered"] = len(cells)
